@@ -166,6 +166,20 @@ func driveC08(o opts) error {
 			}
 			lists = append(lists, cs)
 		}
+		// lone conditions on zero / absent values (rows lacking a map key are
+		// indexed under the zero value; an unset optional under nil)
+		for _, zc := range []Cond{
+			{Col: "m", Fn: "includes", Arg: val.VM([2]val.Atom{val.Str([]string{"k1", "k2", "k3"}[g.Intn(3)]), gen.AtomN('s', g.Intn(2))})},
+			{Col: "os", Fn: []string{"==", "includes", "excludes", "!="}[g.Intn(4)], Arg: val.VNone()},
+			{Col: "tag", Fn: []string{"==", "includes"}[g.Intn(2)], Arg: val.VA(val.Str(""))},
+			{Col: "n", Fn: []string{"==", "includes", "<=", ">="}[g.Intn(4)], Arg: val.VA(val.Int(0))},
+			{Col: "m", Fn: []string{"==", "includes", "excludes"}[g.Intn(3)], Arg: val.VM()},
+			{Col: "ss", Fn: []string{"==", "includes", "excludes", "!="}[g.Intn(4)], Arg: val.VS()},
+		} {
+			if g.Chance(0.5) {
+				lists = append(lists, []Cond{zc})
+			}
+		}
 		// choose configurations: always "none" plus 3 others
 		pick := []int{0}
 		perm := g.R.Perm(len(cfgs) - 1)
